@@ -1,8 +1,18 @@
-"""Contract models of tokio mpsc / oneshot / JoinSet / spawn as leaf futures (Tier 3).
-A leaf future's `poll` returns a nondeterministic Pending / Ready; every externally
-visible effect is appended to the path's effect log."""
+"""Contract models of tokio mpsc / oneshot / JoinSet / spawn / timers / Notified as
+*leaf futures* (Tier 3): `poll` answers a nondeterministic Pending or Ready; every
+externally visible effect is appended to the path's effect log.  Coroutine bodies
+of the crate (async fn / async block) are interpreted from their MIR."""
+import re
 import z3
 from values import *
+from interp import bool_s, mk_int, concrete_int, norm_closure_ty, last_type_name
+from models_core import some, NONE, opt_sym, ok, err, deref_all, variant_of
+
+PENDING = Enum('Poll', 1, {1: ()})
+
+
+def ready(v):
+    return Enum('Poll', 0, {0: (v,)})
 
 
 class SenderM(Model):
@@ -19,5 +29,247 @@ class SenderM(Model):
         return 'Sender(%s %s)' % (self.kind, self.tok)
 
 
+class OneshotTx(Model):
+    def __init__(self, cid):
+        self.cid = cid
+
+    def __repr__(self):
+        return 'OneshotTx(%d)' % self.cid
+
+
+class OneshotRx(Model):
+    def __init__(self, cid):
+        self.cid = cid
+
+    def __repr__(self):
+        return 'OneshotRx(%d)' % self.cid
+
+
+class Leaf(Model):
+    """a leaf future: kind + data; `done` after it returned Ready"""
+
+    def __init__(self, kind, data=None, done=False):
+        self.kind = kind
+        self.data = data
+        self.done = done
+
+    def __repr__(self):
+        return 'Leaf(%s)' % self.kind
+
+
+class JoinSetM(Model):
+    def __init__(self, tasks=()):
+        self.tasks = tuple(tasks)
+
+
+def may_pend(ip, what):
+    """nondeterministic: does this poll answer Pending?  bounded by the path's budget"""
+    p = ip.path
+    budget = getattr(p, 'pending_budget', 0)
+    if budget <= 0:
+        return False
+    if p.choose(2, 'pending?' + what) == 1:
+        p.pending_budget = budget - 1
+        p.effect('pending', what)
+        return True
+    return False
+
+
+def poll_leaf(ip, loc, leaf):
+    p = ip.path
+    k = leaf.kind
+    if leaf.done:
+        raise PanicPath('panic', 'leaf future %s polled after completion' % k)
+    if k == 'mpsc.send':
+        sender, req = leaf.data
+        if may_pend(ip, 'mpsc.send'):
+            return PENDING
+        write_loc(loc, Leaf(k, leaf.data, True))
+        closed = getattr(p, 'allow_closed', False) and p.choose(2, 'send closed?') == 1
+        if closed:
+            p.effect('send-closed', sender.kind, sender.tok)
+            return ready(err(Opaque('SendError')))
+        p.effect('enqueue', sender.kind, sender.tok, req)
+        hook = getattr(ip.ctx, 'on_enqueue', None)
+        if hook is not None:
+            hook(ip, sender, req)
+        return ready(ok(UNIT))
+    if k == 'oneshot.recv':
+        cid = leaf.data
+        if may_pend(ip, 'oneshot.recv'):
+            return PENDING
+        write_loc(loc, Leaf(k, leaf.data, True))
+        replies = getattr(p, 'replies', {})
+        if cid in replies:
+            p.effect('reply-received', cid)
+            return ready(ok(replies[cid]))
+        closed = getattr(p, 'allow_closed', False)
+        if closed:
+            p.effect('recv-closed', cid)
+            return ready(err(Opaque('RecvError')))
+        raise Unsupported('oneshot receiver %d polled but the obligation supplies no reply' % cid)
+    if k in ('sleep', 'notified', 'deleted', 'generic'):
+        if may_pend(ip, k):
+            return PENDING
+        write_loc(loc, Leaf(k, leaf.data, True))
+        p.effect('ready', k, leaf.data)
+        return ready(UNIT)
+    if k == 'join_next':
+        set_loc = leaf.data
+        js = read_loc(set_loc)
+        if not js.tasks:
+            write_loc(loc, Leaf(k, leaf.data, True))
+            return ready(NONE)
+        if may_pend(ip, 'join_next'):
+            return PENDING
+        # any spawned task may finish first
+        i = p.choose(len(js.tasks), 'join_next which')
+        task = js.tasks[i]
+        write_loc(set_loc, JoinSetM(js.tasks[:i] + js.tasks[i + 1:]))
+        write_loc(loc, Leaf(k, leaf.data, True))
+        cell = Cell(task, 'task')
+        out = yield from drive(ip, Loc(cell))
+        p.effect('task-joined', i)
+        return ready(some(ok(out)))
+    raise Unsupported('leaf future ' + k)
+    yield
+
+
+def drive(ip, loc, max_polls=12):
+    """poll the future at `loc` until Ready (spawned tasks: the runtime always re-polls)"""
+    for _ in range(max_polls):
+        r = yield from poll_future(ip, loc)
+        if r.discr == 0:
+            return r.payload[0][0]
+    raise OutOfBound('future not ready after %d polls' % max_polls)
+
+
+def poll_future(ip, loc):
+    """Future::poll on whatever lives at loc"""
+    v = read_loc(loc)
+    if isinstance(v, Leaf):
+        r = yield from poll_leaf(ip, loc, v)
+        return r
+    if isinstance(v, Enum) and v.name.startswith('coroutine:'):
+        fn = ip.dump.functions[v.name[len('coroutine:'):]]
+        pin = Agg('Pin', [Ref(loc, True)])
+        r = yield from ip.call_fn(fn, [pin, Ref(Loc(Cell(Opaque('Context'), 'cx')), True)])
+        return r
+    if isinstance(v, Agg) and v.name == 'Pin':
+        r = yield from poll_future(ip, v.fields[0].loc)
+        return r
+    if hasattr(v, 'deref_loc'):
+        r = yield from poll_future(ip, v.deref_loc(ip))
+        return r
+    if isinstance(v, Ref):
+        r = yield from poll_future(ip, v.loc)
+        return r
+    if isinstance(v, Agg) and v.name in ('MessagesAvailable', 'Deleted'):
+        # crate wrappers with a hand-written poll
+        fn = ip.ctx.fn(v.name, 'poll')
+        pin = Agg('Pin', [Ref(loc, True)])
+        r = yield from ip.call_fn(fn, [pin, Ref(Loc(Cell(Opaque('Context'), 'cx')), True)])
+        return r
+    raise Unsupported('poll of %r' % (v,))
+
+
 def install(ctx):
-    pass
+    M = ctx.models
+
+    @M.reg('mpsc::channel')
+    def mpsc_channel(ip, pc, args, dt):
+        ip.path.counter += 1
+        cid = ip.path.counter
+        ip.path.effect('mpsc.channel', cid, concrete_int(args[0].t))
+        return Agg(None, [SenderM('new', z3.IntVal(cid)), Opaque('mpsc.Receiver', cid)])
+
+    @M.reg('Sender::send')
+    def sender_send(ip, pc, args, dt):
+        s = args[0]
+        if isinstance(s, Ref):
+            s = read_loc(s.loc)
+        if isinstance(s, SenderM):
+            return Leaf('mpsc.send', (s, args[1]))
+        if isinstance(s, OneshotTx):
+            p = ip.path
+            replies = getattr(p, 'sent', {})
+            replies[s.cid] = args[1]
+            p.sent = replies
+            p.effect('oneshot.send', s.cid, args[1])
+            return ok(UNIT)
+        raise Unsupported('send on %r' % (s,))
+
+    @M.reg('oneshot::channel')
+    def oneshot_channel(ip, pc, args, dt):
+        ip.path.counter += 1
+        cid = ip.path.counter
+        return Agg(None, [OneshotTx(cid), OneshotRx(cid)])
+
+    @M.reg('<IntoFuture>::into_future')
+    def into_future(ip, pc, args, dt):
+        v = args[0]
+        if isinstance(v, OneshotRx):
+            return Leaf('oneshot.recv', v.cid)
+        return v
+
+    @M.reg('Pin::new_unchecked', 'Pin::new')
+    def pin_new(ip, pc, args, dt):
+        return Agg('Pin', [args[0]])
+
+    @M.reg('Pin::as_mut', 'Pin::as_ref')
+    def pin_as_mut(ip, pc, args, dt):
+        pin = read_loc(args[0].loc)
+        inner = pin.fields[0]
+        if isinstance(inner, Ref):
+            return Agg('Pin', [inner])
+        if hasattr(inner, 'deref_loc'):
+            return Agg('Pin', [Ref(inner.deref_loc(ip), True)])
+        raise Unsupported('Pin::as_mut on %r' % (pin,))
+
+    @M.reg('Pin::get_mut', 'Pin::get_unchecked_mut', 'Pin::get_ref', 'Pin::into_inner')
+    def pin_get_mut(ip, pc, args, dt):
+        return args[0].fields[0]
+
+    @M.reg('Pin::map_unchecked_mut')
+    def pin_map(ip, pc, args, dt):
+        pin, f = args
+        r = yield from ip.call_closure(f, [pin.fields[0]])
+        return Agg('Pin', [r])
+
+    @M.reg('<Future>::poll', 'Future::poll')
+    def future_poll(ip, pc, args, dt):
+        pin = args[0]
+        r = yield from poll_future(ip, pin.fields[0].loc if isinstance(pin, Agg) else pin.loc)
+        return r
+
+    @M.reg('JoinSet::new')
+    def joinset_new(ip, pc, args, dt):
+        return JoinSetM()
+
+    @M.reg('JoinSet::spawn')
+    def joinset_spawn(ip, pc, args, dt):
+        r, fut = args
+        js = read_loc(r.loc)
+        write_loc(r.loc, JoinSetM(js.tasks + (fut,)))
+        ip.path.effect('joinset.spawn', fut)
+        return Opaque('AbortHandle')
+
+    @M.reg('JoinSet::join_next')
+    def joinset_join_next(ip, pc, args, dt):
+        return Leaf('join_next', args[0].loc)
+
+    @M.reg('tokio::spawn', 'task::spawn', '::spawn')
+    def tokio_spawn(ip, pc, args, dt):
+        ip.path.effect('spawn', args[0])
+        return Opaque('JoinHandle')
+
+    @M.reg('time::sleep', 'time::sleep_until', 'tokio::time::sleep', 'sleep::sleep', 'sleep::sleep_until')
+    def sleep(ip, pc, args, dt):
+        ip.path.effect(pc['method'], args[0])
+        return Leaf('sleep', args[0])
+
+    @M.reg('Notify::notified')
+    def notified(ip, pc, args, dt):
+        n = read_loc(args[0].loc)
+        ip.path.effect('notified()', n.name)
+        return Leaf('notified', n.name)
